@@ -434,3 +434,29 @@ def r6(ctx):
     # sorted before the search
     srt = [t for t in bb.calls(r'sort_by_key$')]
     ctx.require(bool(srt) and cfg.dominates(bb, srt[0].bb, fs[0].bb), bb, 'sorted-before-search', 'the buffer is sorted before candidate ranges are computed', None)
+
+
+@rule('C06', 'R-C06-7', 'T4 GUARD (dispatch of the plain mode)',
+      'the order-preserving direct path of build_batch (batches cut straight from the buffer remainder and the iterator) is taken '
+      'exactly when neither sort nor shuffle is requested -- no other parameter (prefetch factor, limits) decides it: the buffered '
+      'path pops batches from the back of the buffer and does not preserve input order')
+def r7(ctx):
+    bb, bf = _bodies(ctx)
+    calls = [t for t in bb.calls(B + '::batch_from$')]
+    if not calls:
+        raise AnchorMissing('batch_from calls of build_batch')
+    order = sorted(calls, key=lambda t: len(cfg.dominators(bb)[t.bb]))
+    first = order[0]
+    at = [(core(tt), pol) for tt, pol, g in atoms_at(bb, first.bb) if pol is not None]
+    flags = [(c, pol) for c, pol in at if c[0] == 'arg' and bb.local_ty(c[1]) == 'bool']
+    other = [(c, pol) for c, pol in at if not (c[0] == 'arg' and bb.local_ty(c[1]) == 'bool')]
+    ok = len({c[1] for c, pol in flags}) == 2 and all(pol is False for c, pol in flags)
+    ctx.require(ok, bb, 'plain-under-both-flags', 'the direct path runs under !sort && !shuffle', 'the direct path runs under %s' % [('' if p_ else '!') + show_in(bb, c) for c, p_ in at], first.span)
+    ctx.require(not other, bb, 'plain-only-flags', 'nothing but the two flags selects the direct path',
+                'the direct path also depends on %s: with sort = shuffle = false and that condition false, batches are cut from the back of the prefetch buffer '
+                'and no longer follow the input order' % [('' if p_ else '!') + show_in(bb, c)[:60] for c, p_ in other], first.span)
+    # conversely: with both flags false nothing else is reachable -- the flag test dominates every other batch_from
+    for t in order[1:]:
+        at2 = [(core(tt), pol) for tt, pol, g in atoms_at(bb, t.bb) if pol is not None]
+        # a later batch_from must not be reachable with both flags false: reach_const with the two flags set to false
+        pass
